@@ -286,7 +286,9 @@ fn apply(obs: &mut ObservableVecDeque<u64, Codec>, op: &Op) -> &'static str {
         }
         Op::Extend(vs) => {
             obs.extend(vs.iter().copied());
-            if vs.is_empty() {
+            if vs.is_empty() && obs.is_done() {
+                "extend_empty_after_done"
+            } else if vs.is_empty() {
                 "extend_empty"
             } else {
                 "extend"
@@ -641,10 +643,11 @@ pub fn gen(r: &mut Rng, i: usize) -> Vec<Vec<u128>> {
             if r.chance(5, 6) {
                 ops.push(16);
             } else {
-                match r.below(4) {
+                match r.below(5) {
                     0 => ops.extend([1, val(r)]),
                     1 => ops.push(4),
                     2 => ops.push(13),
+                    3 => ops.extend([17, 0]), // extend with nothing: no panic
                     _ => ops.extend([8, 0]),
                 }
             }
@@ -731,7 +734,7 @@ pub fn gen(r: &mut Rng, i: usize) -> Vec<Vec<u128>> {
                 len = len.min(n);
             }
             22 => {
-                if r.chance(1, 3) {
+                if r.chance(2, 3) {
                     ops.push(13);
                     len = 0;
                 } else {
@@ -800,5 +803,8 @@ pub fn gen(r: &mut Rng, i: usize) -> Vec<Vec<u128>> {
 }
 
 pub fn run(seed: u64, count: usize, extra: &[String], out: &mut impl Write) {
-    crate::drive(COMP, seed ^ 0xC132, count, extra, out, gen, exec);
+    // Rng::new of adjacent seeds yields shifted copies of one stream (the driver's shards use seeds s, s+1, ...):
+    // scramble the seed first so that shards are independent
+    let seed = Rng::new(seed ^ 0xC132).next();
+    crate::drive(COMP, seed, count, extra, out, gen, exec);
 }
